@@ -182,6 +182,49 @@ EXTRA2 = {
 NOT_YET = "check not built yet in this session; see DESIGN.md for the planned static clauses"
 NOT_APPLICABLE = {}
 
+EXTRA3 = {
+ "C01": ("phase-order rule for the augment loop (a bare uses in an augment body is expanded before the augment is applied), write-through rule over the generated setters of shared template nodes, merge rule for the feature set",
+         "Also decided: a module-level augment's own uses are expanded before the augment is inserted; a generated setter never writes through a pointer that clone() copies shallowly; initialising the feature set of one module adds to what earlier modules enabled."),
+ "C02": ("return-shape rule for meta.Find (an absolute path starts at the root module of the tree), clone rule without a guard on the per-copy type, and the explicit-number rule (a written value/position is recognised by a flag, never by being > 0)",
+         "Also decided: an absolute leafref path starts at the root of the tree the leaf ended up in; every clone of a leaf-list gets its own type; `value 0` / `position 0` are honoured as written."),
+ "C03": ("emptiness rule for list entries (a pointer to an all-zero struct is an entry), member-kind exhaustiveness of clearChoiceCase, definition-module rule for qualified JSON keys",
+         "Also decided: an existing entry whose fields are all zero is still an entry; clearing a case reaches nested choices; a qualified member name is built from the module the definition was written in."),
+ "C04": ("qualified-lookup rule for the JSON reader's Choose, key-by-its-own-leaf rule for row reads of compound keys, defaults-on-create rule extended to leaves under a false when",
+         "Also decided: the JSON reader's case selection uses the same qualified lookup as its member reads; each key of a compound key is converted with its own leaf's type; a default is not materialised for a leaf whose when is false."),
+ "C05": ("numeric-class rule normalising list formats to their single form, reader-errors-surface rule over the XML reader's conversions (no shadowed err)",
+         "Also decided: a leaf-list of a numeric type is range-checked as numeric; a conversion error of an XML element is returned, not lost in a shadowed variable."),
+ "C06": ("exact-decode rule for double-quoted text (no trimming of the decoded value), merge rule for the feature set, units-inheritance rule testing the node's own units",
+         "Also decided: the decoded text of a quoted string is used as is; a typedef's units are inherited exactly when the node has none."),
+ "C07": ("target-in-force-at-use rule for the last navigation request, base-agreement rule over the ListRequests the editor builds, flush rule for every separator of the fields expression parser",
+         "Also decided: the request for the last path segment carries the Target mark when constraints are applied; the editor's source and destination list requests share the request's base; `;` closes the pending alternative at every level."),
+ "C08": ("key-order rule (KeyMeta follows the key statement), where-needs-base rule, lossy-convert rule over String() of 64-bit values",
+         "Also decided: compound keys are matched in key-statement order; a where is not evaluated for navigation requests; a uint64 key renders without passing through int."),
+ "C09": ("both-sides rule for Tee.Child under delete, field-path rule for embedded struct fields (FieldByIndex), delete-before-descend rule for map-backed nodes",
+         "Also decided: a delete reaches both sides of a Tee; clearing a case member addresses the field by its whole index path; a map-backed node handles delete before it descends into a list."),
+ "C10": ("decoded-length rule for base64 (the count Decode returns bounds the value), bits-by-position rule, lossy-convert over float→string",
+         "Also decided: binary values have exactly the decoded length; a numeric bits source is matched by bit position, not definition order; a float64 is rendered without an int64 detour."),
+ "C11": ("one-IfFeature-per-statement rule, feature-filter rule on cases added by an augment, capability rule for mandatory in deviations",
+         "Also decided: two if-feature statements stay two expressions; a case added by augment under a disabled feature is dropped; a deviation may set mandatory on a choice."),
+ "C12": ("wrap-with-%w rule over all of package node, defer-immediately-after-begin and deferred-error-is-the-result rules on editor.enter, stop-at-first-failure rule for clearChoiceCase",
+         "Also decided: errors crossing CheckWhen keep their identity; endEdit is registered only after beginEdit succeeded and its error is the function's result; clearing stops at the first failure."),
+ "C13": ("read-loop rule for the xpath lexer (every read loop leaves on end of input), row-number rule for fc.range, nil-error rule for the Choose of the library's edit sources, hook rule (an optional callback is called only where that same field was tested)",
+         "Also decided: an unterminated literal ends the scan; row numbers cannot be negative; the edit sources' Choose cannot fail into the iterator's panic; nodeutil.Node/Basic/Extend never call an unset callback."),
+ "C14": ("token-class agreement between the if-feature tokenizer's skip and stop sets, pool-marks-every-holder rule for the compile guard, string-token-needs-input rule, belongs-to-needs-parent rule",
+         "Also decided: whitespace that ends an if-feature token is also skipped; the already-compiled guard covers every node kind a grouping cycle can pass through; no empty string token is accepted at end of input; belongs-to is recorded only on an included submodule."),
+ "C15": ("request-paths-agree rule (the destination request's path is the request path, not the destination selection's), deferred-error rule shared with C12, lossy-convert over the integer String() helpers",
+         "Also decided: qualified member names are decided on the same path for both sides of an edit; a failure of the writer's final flush is the edit's result."),
+ "C16": ("when-on-the-node rule for augments into a choice, operand-read-unfiltered rule (the read an expression's operand comes from carries no field filter), compare-order rule without tolerance, exact-literal rule for xpath numbers",
+         "Also decided: an augment's when stays on the augmented node; fields= cannot hide an operand; decimal64 and 64-bit integer operands are compared exactly."),
+ "C17": ("whole-key comparator rule for the slice sorter, index-nil-on-error rule for Reflect.buildKeys, emptiness rule shared with C03",
+         "Also decided: the key index orders by every key; a half-built index is never kept after an error."),
+ "C18": ("zeroes-the-field rule for structAsContainer.clear, whole-key comparator and emptiness rules shared with C17/C03",
+         "Also decided: a deleted list becomes the zero value of its field, not an empty non-nil slice."),
+ "C19": ("list-form-agrees-with-scalar rule for identityref conversion, reader-errors-surface rule; changes inside the vendored encoding/xml copy (patch/xml) are out of scope — the decoder is trusted",
+         "Also decided: an identityref leaf-list strips the module prefix the same way the scalar form does. Not decided: the behaviour of the vendored XML decoder (namespace scoping, character data)."),
+ "C20": ("no package-level variable written from the resolver, use-mutates-meta rule extended to Builder calls from request handling, replace-not-overwrite rule for reflected leaf-list writes",
+         "Also decided: serving a request never completes or repairs the shared schema through the Builder; a leaf-list write replaces the stored slice instead of copying into the array other holders see."),
+}
+
 def main():
     props = [json.loads(l) for l in open(os.path.join(ROOT, "properties.jsonl"))]
     checks, na = [], []
@@ -193,6 +236,8 @@ def main():
                 tech, text = tech + "; " + EXTRA[pid][0], text + " " + EXTRA[pid][1]
             if pid in EXTRA2:
                 tech, text = tech + "; " + EXTRA2[pid][0], text + " " + EXTRA2[pid][1]
+            if pid in EXTRA3:
+                tech, text = tech + "; " + EXTRA3[pid][0], text + " " + EXTRA3[pid][1]
             checks.append({
                 "property_id": pid,
                 "quick_cmd": "./check %s quick" % pid,
@@ -227,6 +272,12 @@ def main():
         "notes": "All claims are level 'other': structural necessary conditions decided for every input/path at once by static analysis; none is a proof of the behavioural property. Genuine defects found are either repaired in /repo by 'fix:' commits (listed under 'fixed' in known_findings.json) or listed as known findings.",
     }
     json.dump(m, open(os.path.join(ROOT, "MANIFEST.json"), "w"), indent=1)
+    with open(os.path.join(ROOT, "checker/internal/rules/explain_extra.go"), "w") as f:
+        f.write("package rules\n\n// ExplainExtra: what was added to each property's rule set during the seeded-change\n// campaign (generated by tools/gen_manifest.py from EXTRA/EXTRA2/EXTRA3); appended to the explanation in evidence.\nvar ExplainExtra = map[string]string{\n")
+        for pid in sorted(CLAIMED):
+            parts = [d[pid][1] for d in (EXTRA, EXTRA2, EXTRA3) if pid in d]
+            f.write("\t%s: %s,\n" % (json.dumps(pid), json.dumps(" ".join(parts), ensure_ascii=False)))
+        f.write("}\n")
     print("MANIFEST.json: %d checks, %d not_applicable" % (len(checks), len(na)))
 
 if __name__ == "__main__":
